@@ -19,6 +19,8 @@ var (
 	ErrPIDNotFound      = errors.New("astits: PID not found")
 	ErrPIDAlreadyExists = errors.New("astits: PID already exists")
 	ErrPCRPIDInvalid    = errors.New("astits: PCR PID invalid")
+
+	ErrAdaptationFieldTooLarge = errors.New("astits: adaptation field too large")
 )
 
 type Muxer struct {
@@ -182,6 +184,11 @@ func (m *Muxer) WriteData(d *MuxerData) (int, error) {
 
 	bytesWritten := 0
 
+	// adaptation field must at least fit in a packet of its own
+	if d.AdaptationField != nil && 1+mpegTsPacketHeaderSize+calcPacketAdaptationFieldSize(d.AdaptationField) > m.packetSize {
+		return 0, ErrAdaptationFieldTooLarge
+	}
+
 	forceTables := d.AdaptationField != nil &&
 		d.AdaptationField.RandomAccessIndicator &&
 		d.PID == m.pmt.PCRPID
@@ -200,7 +207,7 @@ func (m *Muxer) WriteData(d *MuxerData) (int, error) {
 		pktLen := 1 + mpegTsPacketHeaderSize // sync byte + header
 		pkt := Packet{
 			Header: PacketHeader{
-				ContinuityCounter:         uint8(ctx.cc.inc()),
+				ContinuityCounter:         uint8(ctx.cc.get()),
 				HasAdaptationField:        writeAf,
 				HasPayload:                false,
 				PayloadUnitStartIndicator: false,
@@ -218,7 +225,8 @@ func (m *Muxer) WriteData(d *MuxerData) (int, error) {
 		bytesAvailable := m.packetSize - pktLen
 		if payloadStart {
 			pesHeaderLengthCurrent := pesHeaderLength + int(calcPESOptionalHeaderLength(d.PES.Header.OptionalHeader))
-			// d.AdaptationField with pes header are too big, we don't have space to write pes header
+			// d.AdaptationField with pes header are too big, we don't have space to write pes header:
+			// the adaptation field goes in a packet of its own, which doesn't increment the continuity counter
 			if bytesAvailable < pesHeaderLengthCurrent {
 				pkt.Header.HasAdaptationField = true
 				if pkt.AdaptationField == nil {
@@ -226,6 +234,13 @@ func (m *Muxer) WriteData(d *MuxerData) (int, error) {
 				} else {
 					pkt.AdaptationField.StuffingLength = bytesAvailable
 				}
+
+				n, err = writePacket(m.bitsWriter, &pkt, m.packetSize)
+				if err != nil {
+					return bytesWritten, err
+				}
+
+				bytesWritten += n
 			} else {
 				pkt.Header.HasPayload = true
 				pkt.Header.PayloadUnitStartIndicator = true
@@ -235,6 +250,8 @@ func (m *Muxer) WriteData(d *MuxerData) (int, error) {
 		}
 
 		if pkt.Header.HasPayload {
+			pkt.Header.ContinuityCounter = uint8(ctx.cc.inc())
+
 			m.buf.Reset()
 			if d.PES.Header.StreamID == 0 {
 				d.PES.Header.StreamID = ctx.es.StreamType.ToPESStreamID()
